@@ -225,6 +225,34 @@ pub fn ans_state(case: &Value, mode: &str, rep: &mut Report) {
                 }
             }
         }
+        // ------------------------------------------------------------------ impossible symbols, failing backend
+        "c09" => {
+            if !(export.is_empty() && state != 0) {
+                if let Ok(c0) = g!("from_compressed", ans_from_compressed(w, s, &export)) {
+                    let raw0 = c0.raw();
+                    let mut k = c0.clone_box();
+                    for prec in 1..=(w as usize) {
+                        let t = 1u64 << prec;
+                        for (cdf, sym) in [(vec![0u64, 0, t], 0usize), (vec![0, t, t], 1), (vec![0, 1, t], 2), (vec![0, 1, t], 9)] {
+                            let r = g!("encode_symbol", k.enc(prec, &cdf, sym)); rep.checks += 1;
+                            if r != Err("impossible".to_string()) { bad(rep, format!("encoding impossible symbol {} of table {:?} returned {:?}", sym, cdf, r)); return; }
+                            if k.raw() != raw0 { bad(rep, format!("failed encode changed the coder {:?} -> {:?}", raw0, k.raw())); return; }
+                        }
+                    }
+                    // encoding continues and everything still decodes
+                    for r in enc_rows.iter().step_by(2) {
+                        let cdf = slot_cdf(r[0] as usize, r[1], r[2]);
+                        let mut k2 = k.clone_box();
+                        let e = g!("encode_symbol", k2.enc(r[0] as usize, &cdf, 1));
+                        let bad_sym = g!("encode_symbol", k2.enc(r[0] as usize, &cdf, 7));
+                        let d = g!("decode_symbol", k2.dec(r[0] as usize, &cdf));
+                        rep.checks += 1;
+                        if e.is_err() || bad_sym != Err("impossible".to_string()) || d != 1 || k2.raw() != raw0 { bad(rep, format!("after rejected symbols: encode {:?} -> {:?}, decode -> {}, coder {:?} (expected {:?})", &r[..3], e, d, k2.raw(), raw0)); }
+                    }
+                }
+            }
+            if bulk.is_empty() || state >= (1u128 << (s - w)) { crate::ans_bounded::dispatch(case, w, s, &bulk, state, &enc_rows, rep); }
+        }
         // ------------------------------------------------------------------ size bound, per step
         "c12" => {
             if export.is_empty() && state != 0 { return; }
@@ -293,6 +321,8 @@ fn replay_lines(lines: &[(usize, String)], mode: &str, skip: &std::collections::
         match case["k"].as_str().unwrap_or("") {
             "ans_state" => ans_state(&case, mode, &mut rep),
             "range_hist" => crate::range_replay::range_hist(&case, mode, &mut rep),
+            "rdec" => crate::range_replay::rdec_case(&case, mode, &mut rep),
+            "chain" => crate::chain_replay::chain_case(&case, mode, &mut rep),
             "huffman" => crate::symbol_replay::huffman_case(&case, mode, &mut rep),
             "expgolomb" | "expgolomb_max" => crate::symbol_replay::golomb_case(&case, mode, &mut rep),
             "bits" => crate::bits_replay::bits_case(&case, mode, &mut rep),
